@@ -63,6 +63,45 @@ pub fn skeleton(op: Op, cfg: &ClientCfg) -> (Scenario, usize) {
     (sc, idx)
 }
 
+/// How long the client under test waits for one packet before it gives the attempt up, measured on the client itself:
+/// the terminal goes silent in front of the acknowledgement of a reservation and keeps the connection open; the time
+/// until the client drops that connection.  Scenarios with a *slow but healthy* terminal scale their pauses with it,
+/// so that they stay inside the per-packet wait whatever its value is.
+pub fn measured_packet_wait_ms(schema: &Arc<refcodec::layout::Schema>) -> Option<u64> {
+    static W: std::sync::OnceLock<Option<u64>> = std::sync::OnceLock::new();
+    *W.get_or_init(|| {
+        let (mut sc, idx) = skeleton(Op::Begin, &ClientCfg::default());
+        sc.plan.faults.push(FaultSpec { call: idx, at: At::Point(Cmd::Reservation, 0), kind: FaultKind::Silence });
+        let tr = run_scenario(&sc, schema);
+        let fault = tr.log.iter().find(|e| e.call == idx && matches!(e.dir, Dir::Fault(FaultKind::Silence)))?;
+        let eof = tr.log.iter().find(|e| e.conn == fault.conn && e.dir == Dir::Eof && e.t_ms >= fault.t_ms)?;
+        Some((eof.t_ms - fault.t_ms).max(5_000))
+    })
+}
+
+/// The grace the client under test gives a terminal beyond the configured read-card time-out, measured the same way
+/// (read_card_timeout 15 s, the terminal silent in front of the acknowledgement): per-packet wait of read_card minus
+/// the configured time-out.  Scenarios in which the terminal reports the end of its *own* card time-out "a little
+/// later, still inside the client's grace" scale that little with it.  Floor 1 s: an answer that arrives within a
+/// second after the terminal's own time-out has to be waited for whatever the client's margin is (assumption, stated
+/// in the evidence); with the 2 s of the pinned tree the scenarios are what they always were.
+pub fn measured_read_card_grace_ms(schema: &Arc<refcodec::layout::Schema>) -> u64 {
+    static G: std::sync::OnceLock<u64> = std::sync::OnceLock::new();
+    *G.get_or_init(|| {
+        let mut sc = Scenario::default();
+        sc.cfg.read_card_timeout = 15;
+        sc.calls = vec![Call::ReadCard];
+        sc.plan.faults.push(FaultSpec { call: 2, at: At::Point(Cmd::ReadCard, 0), kind: FaultKind::Silence });
+        let tr = run_scenario(&sc, schema);
+        let measured = (|| {
+            let fault = tr.log.iter().find(|e| e.call == 2 && matches!(e.dir, Dir::Fault(FaultKind::Silence)))?;
+            let eof = tr.log.iter().find(|e| e.conn == fault.conn && e.dir == Dir::Eof && e.t_ms >= fault.t_ms)?;
+            Some((eof.t_ms - fault.t_ms).saturating_sub(15_000))
+        })();
+        measured.unwrap_or(2_000).clamp(1_000, 60_000)
+    })
+}
+
 fn registration_bytes(cfg: &ClientCfg) -> Vec<u8> {
     // 06 00 len | password f3 bcd | DE | currency f2 bcd      (reference encoding, no TLV container)
     let mut body = vec![0u8; 3];
@@ -510,19 +549,24 @@ pub fn run(ctx: &Ctx, id: &str) -> i32 {
                     }
                 }
             }
-            // a slow but healthy terminal: *every* packet of the operation arrives 10 / 25 s after the previous one (inside the
-            // time the client waits for a packet; the operation as a whole takes minutes): success on the one connection
+            // a slow but healthy terminal: *every* packet of the operation arrives W/6 / 0.4 W after the previous one, W being
+            // the time the client is observed to wait for a packet (10 s / 24 s with the 60 s of the pinned tree): inside
+            // that wait, also for an acknowledgement and a first reply together; the operation as a whole takes minutes:
+            // success on the one connection
             if shard == 1 % threads {
+                // (a client that never gives a silent connection up has no per-packet wait to stay inside: 60 s then)
+                let w_ms = measured_packet_wait_ms(&schema).unwrap_or(60_000);
+                r.note("measured_per_packet_wait_ms", &format!("{w_ms:07}"));
                 for op in OPS {
                     // not `new`: its packets are the handshake's, which the client bounds as a whole (60 s), so a
                     // handshake of 4 x 25 s is a time-out by the client's own definition, not a healthy exchange
                     if op == Op::New {
                         continue;
                     }
-                    for secs in [10u32, 25] {
+                    for secs in [(w_ms / 6000).max(1) as u32, (w_ms * 2 / 5000).max(1) as u32] {
                         let (mut sc, idx) = skeleton(op, &base_cfg);
                         if op == Op::ReadCard {
-                            sc.cfg.read_card_timeout = 60;
+                            sc.cfg.read_card_timeout = 60; // the card wait is this exchange's per-packet wait
                         }
                         for p in 0..points[&op].len() {
                             sc.plan.faults.push(FaultSpec { call: idx, at: At::Tx(p), kind: FaultKind::Pause(secs) });
@@ -602,15 +646,16 @@ pub fn run(ctx: &Ctx, id: &str) -> i32 {
                 let cfg = ClientCfg { read_card_timeout: rc as u8, ..base_cfg.clone() };
                 let mut sc = Scenario { cfg: cfg.clone(), ..Scenario::default() };
                 sc.calls = vec![Call::ReadCard];
-                sc.plan.push(2, Cmd::ReadCard, ExPlan { result: ExResult::Abort(0x6c), silent_ms: rc as u64 * 1000 + 100, ..ExPlan::default() });
-                let tr = run_and_judge(r, id, &sc, 2, &schema, &format!("read_card with read_card_timeout {rc}: terminal answers 'abort 6C' after {rc}.1 s"), false);
+                let a_little = measured_read_card_grace_ms(&schema) / 20; // 100 ms of the 2 s grace
+                sc.plan.push(2, Cmd::ReadCard, ExPlan { result: ExResult::Abort(0x6c), silent_ms: rc as u64 * 1000 + a_little, ..ExPlan::default() });
+                let tr = run_and_judge(r, id, &sc, 2, &schema, &format!("read_card with read_card_timeout {rc}: terminal answers 'abort 6C' after {rc} s + {a_little} ms"), false);
                 r.count("read_card_timeouts_tried", 1);
                 if let Some(ct) = tr.calls.get(1) {
                     let waited = matches!(&ct.result, CallResult::Err { class: ErrClass::NoCardPresented, .. });
                     if !waited && !matches!(ct.result, CallResult::Hang | CallResult::Panic(_)) {
                         r.violation(
                             "C10 read_card: the per-packet timeout collapses below the configured read-card time-out",
-                            &format!("read_card_timeout {rc}: the terminal answered after {rc}.1 s but the client did not wait for it: {} ({} ReadCard requests sent)", ct.result.short(), tr.requests.iter().filter(|q| q.cmd == Cmd::ReadCard).count()),
+                            &format!("read_card_timeout {rc}: the terminal answered after {rc} s + {a_little} ms but the client did not wait for it: {} ({} ReadCard requests sent)", ct.result.short(), tr.requests.iter().filter(|q| q.cmd == Cmd::ReadCard).count()),
                             case_json(&sc, &tr),
                         );
                     }
